@@ -173,5 +173,31 @@ P2SHOfRedeem(redeem) == IF Len(redeem) > 520 THEN [ok |-> FALSE] ELSE [ok |-> TR
 P2PKHOfPubKey(pub, acceptInvalid) ==
   IF acceptInvalid \/ FullyValid(pub) THEN [ok |-> TRUE, a |-> [cls |-> "P2PKH", payload |-> Hash160(pub)]] ELSE [ok |-> FALSE]
 
+\* ------------------------------------------------------------ opcode helpers and the remaining script predicates
+IsSmallIntOp(op) == op = 0 \/ (op >= OP_1 /\ op <= OP_16)
+OpNOf(n) == IF n = 0 THEN 0 ELSE OP_1 + n - 1            \* defined for 0..16, ValueError outside
+NOfOp(op) == IF op = 0 THEN 0 ELSE op - OP_1 + 1         \* defined on small-int opcodes, ValueError outside
+IsNestedV0KeyHash(s) == Len(s) = 23 /\ SubSeq(s, 1, 3) = <<22, 0, 20>>       \* scriptSig of P2SH-P2WPKH
+IsNestedV0ScriptHash(s) == Len(s) = 35 /\ SubSeq(s, 1, 3) = <<34, 0, 32>>    \* scriptSig of P2SH-P2WSH
+WitnessVersionOf(s) == NOfOp(s[1])                       \* for witness programs
+
+\* ------------------------------------------------------------ repr(CScript)
+\* opcode names as Bitcoin Core's GetOpName gives them since BIP65/BIP112 (0xb1 CHECKLOCKTIMEVERIFY, 0xb2 CHECKSEQUENCEVERIFY); code points
+OpName == (0 :> <<79, 80, 95, 48>>) @@ (76 :> <<79, 80, 95, 80, 85, 83, 72, 68, 65, 84, 65, 49>>) @@ (77 :> <<79, 80, 95, 80, 85, 83, 72, 68, 65, 84, 65, 50>>) @@ (78 :> <<79, 80, 95, 80, 85, 83, 72, 68, 65, 84, 65, 52>>) @@ (79 :> <<79, 80, 95, 49, 78, 69, 71, 65, 84, 69>>) @@ (80 :> <<79, 80, 95, 82, 69, 83, 69, 82, 86, 69, 68>>) @@ (81 :> <<79, 80, 95, 49>>) @@ (82 :> <<79, 80, 95, 50>>) @@ (83 :> <<79, 80, 95, 51>>) @@ (84 :> <<79, 80, 95, 52>>) @@ (85 :> <<79, 80, 95, 53>>) @@ (86 :> <<79, 80, 95, 54>>) @@ (87 :> <<79, 80, 95, 55>>) @@ (88 :> <<79, 80, 95, 56>>) @@ (89 :> <<79, 80, 95, 57>>) @@ (90 :> <<79, 80, 95, 49, 48>>) @@ (91 :> <<79, 80, 95, 49, 49>>) @@ (92 :> <<79, 80, 95, 49, 50>>) @@ (93 :> <<79, 80, 95, 49, 51>>) @@ (94 :> <<79, 80, 95, 49, 52>>) @@ (95 :> <<79, 80, 95, 49, 53>>) @@ (96 :> <<79, 80, 95, 49, 54>>) @@ (97 :> <<79, 80, 95, 78, 79, 80>>) @@ (98 :> <<79, 80, 95, 86, 69, 82>>) @@ (99 :> <<79, 80, 95, 73, 70>>) @@ (100 :> <<79, 80, 95, 78, 79, 84, 73, 70>>) @@ (101 :> <<79, 80, 95, 86, 69, 82, 73, 70>>) @@ (102 :> <<79, 80, 95, 86, 69, 82, 78, 79, 84, 73, 70>>) @@ (103 :> <<79, 80, 95, 69, 76, 83, 69>>) @@ (104 :> <<79, 80, 95, 69, 78, 68, 73, 70>>) @@ (105 :> <<79, 80, 95, 86, 69, 82, 73, 70, 89>>) @@ (106 :> <<79, 80, 95, 82, 69, 84, 85, 82, 78>>) @@ (107 :> <<79, 80, 95, 84, 79, 65, 76, 84, 83, 84, 65, 67, 75>>) @@ (108 :> <<79, 80, 95, 70, 82, 79, 77, 65, 76, 84, 83, 84, 65, 67, 75>>) @@ (109 :> <<79, 80, 95, 50, 68, 82, 79, 80>>) @@ (110 :> <<79, 80, 95, 50, 68, 85, 80>>) @@ (111 :> <<79, 80, 95, 51, 68, 85, 80>>) @@ (112 :> <<79, 80, 95, 50, 79, 86, 69, 82>>) @@ (113 :> <<79, 80, 95, 50, 82, 79, 84>>) @@ (114 :> <<79, 80, 95, 50, 83, 87, 65, 80>>) @@ (115 :> <<79, 80, 95, 73, 70, 68, 85, 80>>) @@ (116 :> <<79, 80, 95, 68, 69, 80, 84, 72>>) @@ (117 :> <<79, 80, 95, 68, 82, 79, 80>>) @@ (118 :> <<79, 80, 95, 68, 85, 80>>) @@ (119 :> <<79, 80, 95, 78, 73, 80>>) @@ (120 :> <<79, 80, 95, 79, 86, 69, 82>>) @@ (121 :> <<79, 80, 95, 80, 73, 67, 75>>) @@ (122 :> <<79, 80, 95, 82, 79, 76, 76>>) @@ (123 :> <<79, 80, 95, 82, 79, 84>>) @@ (124 :> <<79, 80, 95, 83, 87, 65, 80>>) @@ (125 :> <<79, 80, 95, 84, 85, 67, 75>>) @@ (126 :> <<79, 80, 95, 67, 65, 84>>) @@ (127 :> <<79, 80, 95, 83, 85, 66, 83, 84, 82>>) @@ (128 :> <<79, 80, 95, 76, 69, 70, 84>>) @@ (129 :> <<79, 80, 95, 82, 73, 71, 72, 84>>) @@ (130 :> <<79, 80, 95, 83, 73, 90, 69>>) @@ (131 :> <<79, 80, 95, 73, 78, 86, 69, 82, 84>>) @@ (132 :> <<79, 80, 95, 65, 78, 68>>) @@ (133 :> <<79, 80, 95, 79, 82>>) @@ (134 :> <<79, 80, 95, 88, 79, 82>>) @@ (135 :> <<79, 80, 95, 69, 81, 85, 65, 76>>) @@ (136 :> <<79, 80, 95, 69, 81, 85, 65, 76, 86, 69, 82, 73, 70, 89>>) @@ (137 :> <<79, 80, 95, 82, 69, 83, 69, 82, 86, 69, 68, 49>>) @@ (138 :> <<79, 80, 95, 82, 69, 83, 69, 82, 86, 69, 68, 50>>) @@ (139 :> <<79, 80, 95, 49, 65, 68, 68>>) @@ (140 :> <<79, 80, 95, 49, 83, 85, 66>>) @@ (141 :> <<79, 80, 95, 50, 77, 85, 76>>) @@ (142 :> <<79, 80, 95, 50, 68, 73, 86>>) @@ (143 :> <<79, 80, 95, 78, 69, 71, 65, 84, 69>>) @@ (144 :> <<79, 80, 95, 65, 66, 83>>) @@ (145 :> <<79, 80, 95, 78, 79, 84>>) @@ (146 :> <<79, 80, 95, 48, 78, 79, 84, 69, 81, 85, 65, 76>>) @@ (147 :> <<79, 80, 95, 65, 68, 68>>) @@ (148 :> <<79, 80, 95, 83, 85, 66>>) @@ (149 :> <<79, 80, 95, 77, 85, 76>>) @@ (150 :> <<79, 80, 95, 68, 73, 86>>) @@ (151 :> <<79, 80, 95, 77, 79, 68>>) @@ (152 :> <<79, 80, 95, 76, 83, 72, 73, 70, 84>>) @@ (153 :> <<79, 80, 95, 82, 83, 72, 73, 70, 84>>) @@ (154 :> <<79, 80, 95, 66, 79, 79, 76, 65, 78, 68>>) @@ (155 :> <<79, 80, 95, 66, 79, 79, 76, 79, 82>>) @@ (156 :> <<79, 80, 95, 78, 85, 77, 69, 81, 85, 65, 76>>) @@ (157 :> <<79, 80, 95, 78, 85, 77, 69, 81, 85, 65, 76, 86, 69, 82, 73, 70, 89>>) @@ (158 :> <<79, 80, 95, 78, 85, 77, 78, 79, 84, 69, 81, 85, 65, 76>>) @@ (159 :> <<79, 80, 95, 76, 69, 83, 83, 84, 72, 65, 78>>) @@ (160 :> <<79, 80, 95, 71, 82, 69, 65, 84, 69, 82, 84, 72, 65, 78>>) @@ (161 :> <<79, 80, 95, 76, 69, 83, 83, 84, 72, 65, 78, 79, 82, 69, 81, 85, 65, 76>>) @@ (162 :> <<79, 80, 95, 71, 82, 69, 65, 84, 69, 82, 84, 72, 65, 78, 79, 82, 69, 81, 85, 65, 76>>) @@ (163 :> <<79, 80, 95, 77, 73, 78>>) @@ (164 :> <<79, 80, 95, 77, 65, 88>>) @@ (165 :> <<79, 80, 95, 87, 73, 84, 72, 73, 78>>) @@ (166 :> <<79, 80, 95, 82, 73, 80, 69, 77, 68, 49, 54, 48>>) @@ (167 :> <<79, 80, 95, 83, 72, 65, 49>>) @@ (168 :> <<79, 80, 95, 83, 72, 65, 50, 53, 54>>) @@ (169 :> <<79, 80, 95, 72, 65, 83, 72, 49, 54, 48>>) @@ (170 :> <<79, 80, 95, 72, 65, 83, 72, 50, 53, 54>>) @@ (171 :> <<79, 80, 95, 67, 79, 68, 69, 83, 69, 80, 65, 82, 65, 84, 79, 82>>) @@ (172 :> <<79, 80, 95, 67, 72, 69, 67, 75, 83, 73, 71>>) @@ (173 :> <<79, 80, 95, 67, 72, 69, 67, 75, 83, 73, 71, 86, 69, 82, 73, 70, 89>>) @@ (174 :> <<79, 80, 95, 67, 72, 69, 67, 75, 77, 85, 76, 84, 73, 83, 73, 71>>) @@ (175 :> <<79, 80, 95, 67, 72, 69, 67, 75, 77, 85, 76, 84, 73, 83, 73, 71, 86, 69, 82, 73, 70, 89>>) @@ (176 :> <<79, 80, 95, 78, 79, 80, 49>>) @@ (177 :> <<79, 80, 95, 67, 72, 69, 67, 75, 76, 79, 67, 75, 84, 73, 77, 69, 86, 69, 82, 73, 70, 89>>) @@ (178 :> <<79, 80, 95, 67, 72, 69, 67, 75, 83, 69, 81, 85, 69, 78, 67, 69, 86, 69, 82, 73, 70, 89>>) @@ (179 :> <<79, 80, 95, 78, 79, 80, 52>>) @@ (180 :> <<79, 80, 95, 78, 79, 80, 53>>) @@ (181 :> <<79, 80, 95, 78, 79, 80, 54>>) @@ (182 :> <<79, 80, 95, 78, 79, 80, 55>>) @@ (183 :> <<79, 80, 95, 78, 79, 80, 56>>) @@ (184 :> <<79, 80, 95, 78, 79, 80, 57>>) @@ (185 :> <<79, 80, 95, 78, 79, 80, 49, 48>>) @@ (250 :> <<79, 80, 95, 83, 77, 65, 76, 76, 73, 78, 84, 69, 71, 69, 82>>) @@ (251 :> <<79, 80, 95, 80, 85, 66, 75, 69, 89, 83>>) @@ (253 :> <<79, 80, 95, 80, 85, 66, 75, 69, 89, 72, 65, 83, 72>>) @@ (254 :> <<79, 80, 95, 80, 85, 66, 75, 69, 89>>) @@ (255 :> <<79, 80, 95, 73, 78, 86, 65, 76, 73, 68, 79, 80, 67, 79, 68, 69>>)
+HexLow(n) == LET h == Hex(<<n>>) IN IF n < 16 THEN <<h[2]>> ELSE h                   \* "%x"
+Comma == <<44, 32>>
+\* what iteration yields for a parsed element, rendered: small integers as decimals, data as x('hex'), opcodes by name
+TokRepr(o) ==
+  IF o.op = 0 THEN <<48>>
+  ELSE IF o.op >= OP_1 /\ o.op <= OP_16 THEN DecText(BnFromNat(o.op - OP_1 + 1))
+  ELSE IF o.op <= OP_PUSHDATA4 THEN <<120, 40, 39>> \o Hex(o.data) \o <<39, 41>>
+  ELSE IF o.op \in DOMAIN OpName THEN OpName[o.op]
+  ELSE <<67, 83, 99, 114, 105, 112, 116, 79, 112, 40, 48, 120>> \o HexLow(o.op) \o <<41>>     \* CScriptOp(0x..)
+JoinTexts(ts) == IF ts = <<>> THEN <<>> ELSE ts[1] \o Concat([i \in 1..Len(ts) - 1 |-> Comma \o ts[i + 1]])
+\* for scripts that parse; a malformed tail is rendered as an <ERROR: ...> element whose wording is the library's own
+ReprOfScript(s) ==
+  LET r == RawOps(s) IN
+  <<67, 83, 99, 114, 105, 112, 116, 40, 91>> \o JoinTexts([i \in 1..Len(r.ops) |-> TokRepr(r.ops[i])]) \o <<93, 41>>
+
 IsFinalIn(i) == i.seq = Rep(255, 4)
 =============================================================================
